@@ -89,8 +89,9 @@ def script_for(name, kind, r, model):
             lines.append("mkdir -p bin bin2 lib lib2")
             for pth in ("bin", "bin2"):
                 # the tool's behaviour depends on everything its package consumed (its manifest), not only on the recipe
-                lines.append("cat > %s/tool-%s <<'EOT'\n#!/bin/sh\necho \"id-%s-%s $(sha1sum < \"$(dirname \"$0\")/../manifest.txt\" | cut -c1-12)\"\nEOT\nchmod +x %s/tool-%s"
-                             % (pth, tname, tname, tok, pth, tname))
+                calls = "".join("\ntool-%s" % c for c in t.get("calls", []))      # a tool may run the tools it depends on (dependTools)
+                lines.append("cat > %s/tool-%s <<'EOT'\n#!/bin/sh\necho \"id-%s-%s $(sha1sum < \"$(dirname \"$0\")/../manifest.txt\" | cut -c1-12)\"%s\nEOT\nchmod +x %s/tool-%s"
+                             % (pth, tname, tname, tok, calls, pth, tname))
             lines.append("echo lib-%s > lib/lib.txt; echo lib2-%s > lib2/lib.txt" % (tok, tok))
     if model.get("evlog"):
         lines.append('echo "EXEC %s %s $PWD" >> "${VERIF_EVLOG:-/dev/null}"' % (name, kind))
